@@ -9,6 +9,7 @@ Local Open Scope nat_scope.
 
 Section Free.
 Variable rc : bool.
+Context {P : Z -> Prop}.
 
 Definition tris_in (g : sgraph) (tris : list nat) : Prop :=
   Forall (fun o => exists f, tri_node g f o) tris.
@@ -21,19 +22,19 @@ Proof.
 Qed.
 
 Lemma add_free_tail occ root : root <> 0 -> forall fs s root' s',
-  tables_ok s -> Forall (fun f => 1 <= f) fs -> sg_label (ls_g s) root = Some GAnd ->
+  tables_ok P s -> Forall (fun f => 1 <= f /\ @PF P f) fs -> sg_label (ls_g s) root = Some GAnd ->
   add_free rc occ fs root s = Some (root', s') ->
-  root' = root /\ tables_ok s' /\ ext (ls_g s) (ls_g s') [root] /\
+  root' = root /\ tables_ok P s' /\ ext (ls_g s) (ls_g s') [root] /\
   exists tris, sg_out (ls_g s') root = tris ++ sg_out (ls_g s) root /\ tris_in (ls_g s') tris.
 Proof.
   intros Hr0. induction fs as [|i r IH]; intros s root' s' Hok Hfs Hlr H; cbn [add_free] in H.
   - injection H as <- <-. split; [reflexivity|]. split; [exact Hok|]. split; [apply ext_refl|].
     exists []. split; [reflexivity|constructor].
-  - inversion Hfs as [|? ? Hi Hr]; subst.
+  - inversion Hfs as [|? ? [Hi Hpi] Hr]; subst.
     destruct (mem i occ); [now apply IH|].
     apply Nat.eqb_neq in Hr0 as E0. rewrite E0 in H.
     destruct (add_literal_node rc i root s) as [s2|] eqn:E2; [|discriminate].
-    destruct (add_literal_node_spec rc i root s s2 Hok Hi Hlr E2) as [Hok2 [He2 [_ [o [Ho [Hto _]]]]]].
+    destruct (add_literal_node_spec rc i root s s2 Hok Hi Hpi Hlr E2) as [Hok2 [He2 [_ [o [Ho [Hto _]]]]]].
     destruct (IH s2 root' s' Hok2 Hr (ext_label_some _ _ _ _ _ He2 Hlr) H) as [-> [Hok' [He' [tris [Ht1 Ht2]]]]].
     split; [reflexivity|]. split; [exact Hok'|]. split; [exact (ext_trans _ _ _ _ He2 He')|].
     exists (tris ++ [o]). split; [rewrite Ht1, Ho, <- app_assoc; reflexivity|].
@@ -50,29 +51,31 @@ Definition free_result (s : lstate) (root' : nat) (s' : lstate) : Prop :=
    exists tris, sg_out (ls_g s') root' = tris ++ [0] /\ tris_in (ls_g s') tris).
 
 Lemma add_free_spec occ : forall fs s root' s',
-  tables_ok s -> sg_alive (ls_g s) 0 = true -> Forall (fun f => 1 <= f) fs ->
-  add_free rc occ fs 0 s = Some (root', s') -> tables_ok s' /\ free_result s root' s'.
+  tables_ok P s -> sg_alive (ls_g s) 0 = true -> Forall (fun f => 1 <= f /\ @PF P f) fs ->
+  add_free rc occ fs 0 s = Some (root', s') -> tables_ok P s' /\ free_result s root' s'.
 Proof.
   induction fs as [|i r IH]; intros s root' s' Hok H0 Hfs H; cbn [add_free] in H.
   - injection H as <- <-. split; [exact Hok|now left].
-  - inversion Hfs as [|? ? Hi Hr]; subst.
+  - inversion Hfs as [|? ? [Hi Hpi] Hr]; subst.
     destruct (mem i occ); [now apply IH|]. cbn [Nat.eqb] in H.
     destruct (add_node rc GAnd (ls_g s)) as [x g1] eqn:Ha.
     destruct (ls_add_edge x 0 (with_g s g1)) as [s1|] eqn:E1; [|discriminate]. cbn [option_map] in H.
     destruct (add_literal_node rc i x s1) as [s2|] eqn:E2; [|discriminate].
-    destruct Hok as [[HI Hl Hp] Ht].
+    destruct Hok as [[HI Hl Hp Hj] Ht].
     pose proof (add_node_fresh rc _ _ _ _ HI Ha) as Hfresh.
     pose proof (add_node_label_new rc _ _ _ _ HI Ha) as Hlx1.
     pose proof (add_node_no_out rc _ _ _ _ HI Ha) as Hox1.
     pose proof (add_node_ext rc _ _ _ _ [x] HI Ha) as He01.
     assert (Hxd : sg_alive (ls_g s) x = false) by (unfold sg_alive; now rewrite Hfresh).
     assert (Hx0 : x <> 0) by (intros ->; congruence).
-    assert (Hc0 : core_ok (with_g s g1)).
+    assert (Hc0 : core_ok P (with_g s g1)).
     { constructor; cbn [with_g ls_g ls_lits ls_tri].
       - apply (add_node_Inv rc _ _ _ _ HI Ha).
       - intros l z Hz. apply (ext_label_some _ _ _ _ _ He01). now apply Hl.
       - intros z l Hz. destruct (Nat.eq_dec z x) as [->|Hzx]; [congruence|].
-        rewrite (add_node_label_old rc _ _ _ _ Ha z Hzx) in Hz. now apply (Hp z). }
+        rewrite (add_node_label_old rc _ _ _ _ Ha z Hzx) in Hz. now apply (Hp z).
+      - intros z l Hz. destruct (Nat.eq_dec z x) as [->|Hzx]; [congruence|].
+        rewrite (add_node_label_old rc _ _ _ _ Ha z Hzx) in Hz. now apply (Hj z). }
     destruct (ls_add_edge_core x 0 (with_g s g1) s1 [x] Hc0 (or_introl eq_refl) E1) as [Hc1 [He1 [Htri1 [_ Ho1]]]].
     cbn [with_g ls_g ls_tri] in He1, Htri1, Ho1.
     pose proof (ext_trans _ _ _ _ He01 He1) as He01'.
@@ -80,7 +83,7 @@ Proof.
     { intros f o Hfo. rewrite Htri1 in Hfo. apply (tri_node_ext _ _ [x] f o He01'); [|now apply Ht].
       intros [<-|[]]. destruct (Ht f x Hfo) as [_ [Hlo _]]. congruence. }
     assert (Hlx : sg_label (ls_g s1) x = Some GAnd) by exact (ext_label_some _ _ _ _ _ He1 Hlx1).
-    destruct (add_literal_node_spec rc i x s1 s2 (conj Hc1 Ht1) Hi Hlx E2) as [Hok2 [He2 [_ [o [Ho [Hto _]]]]]].
+    destruct (add_literal_node_spec rc i x s1 s2 (conj Hc1 Ht1) Hi Hpi Hlx E2) as [Hok2 [He2 [_ [o [Ho [Hto _]]]]]].
     destruct (add_free_tail occ x Hx0 r s2 root' s' Hok2 Hr (ext_label_some _ _ _ _ _ He2 Hlx) H)
       as [-> [Hok' [He' [tris [Hr1 Hr2]]]]].
     split; [exact Hok'|]. right.
